@@ -173,6 +173,28 @@ def _binding_order(ctx: Ctx, r: RuleResult, pc, sc: FunctionInfo, self_t: Term):
                             checks.append((kind, sl, frozenset(av) if av is not None else None))
                 if any(flow != 'end' for _, flow, _, _ in e.paths):
                     r.fail(key + f':{sl}:early-exit', f'the scan over {call_name(e.iter)}() of {sl} can stop before the last element', sc.where)
+            # the same checks written as searches: `bad = [r for r in E.external_references() if r not in AVAIL]; if bad: raise`
+            searches = list(search_tests(ev, o.guards, found=False))
+            for e in o.effects:
+                # a helper that was looked through raises conditionally: `raise ... if <bad ones> else None`
+                if isinstance(e, Ite):
+                    for g_, leaf in alternatives(e):
+                        if type(leaf).__name__ == 'Raises' and 'HplSanityError' in repr(leaf):
+                            searches.extend(search_tests(ev, tuple(g_), found=True))
+            for it_s, each_s, cond_s in searches:
+                if not (isinstance(it_s, Call) and call_name(it_s) in ('external_references', 'aliases')):
+                    continue
+                sl = slot_of(call_recv(it_s))
+                if sl is None:
+                    continue
+                for t, p in flat_guards(((cond_s, True),)):
+                    if isinstance(t, Op) and t.op in ('in', 'not in') and t.args[0] == each_s:
+                        is_in = (t.op == 'in') == p
+                        av = avail_slots(t.args[1])
+                        kind = 'refs' if call_name(it_s) == 'external_references' else 'dups'
+                        if (kind == 'refs') == is_in:
+                            r.fail(key + f':{sl}:polarity', f'{kind} check of {sl} raises when the name is {"in" if is_in else "not in"} the bound aliases', sc.where)
+                        checks.append((kind, sl, frozenset(av) if av is not None else None))
             order = [(sl, frozenset(av)) for sl, av in want]
             exp_of = dict(order)
             got_refs = [(sl, av) for kind, sl, av in checks if kind == 'refs']
